@@ -18,7 +18,7 @@ use wow_mpq::{AddFileOptions, Archive, ArchiveBuilder, AttributesOption, FormatV
 
 const W_NAME: &str = "Witness\\Keep.dat";
 
-fn names() -> [String; 4] {
+fn names() -> [String; 5] {
     // A, B collide in the start slot (low 4 bits => also for 4- and 8-slot tables); C is A in another
     // spelling; D is fresh (different slot)
     let a = "dir\\alpha.txt".to_string();
@@ -37,7 +37,8 @@ fn names() -> [String; 4] {
             break;
         }
     }
-    [a, b, "DIR/ALPHA.TXT".to_string(), d]
+    // E is a proper substring of A's name (and of its listfile line): listfile bookkeeping must compare whole lines
+    [a, b, "DIR/ALPHA.TXT".to_string(), d, "alpha.txt".to_string()]
 }
 fn fold(n: &str) -> String {
     mpqx::fold(n)
@@ -73,7 +74,7 @@ fn opt_of(o: usize) -> AddFileOptions {
     }
 }
 fn op_str(o: &Op) -> String {
-    let n = ["A", "B", "C", "D"];
+    let n = ["A", "B", "C", "D", "E"];
     match o {
         Op::Add(a, c, p) => format!("add({},c{},{})", n[*a], c, OPTS[*p]),
         Op::Remove(a) => format!("remove({})", n[*a]),
@@ -117,10 +118,11 @@ fn alphabet(tier: Tier) -> Vec<Op> {
         v.push(Op::Add(0, 2, 0)); // empty content
         v.push(Op::Add(3, 1, 4)); // position-adjusted key on a compressible (shrinking) content
     }
-    for n in 0..4 {
+    v.push(Op::Add(4, 0, 0)); // E: its name is a substring of A's
+    for n in 0..5 {
         v.push(Op::Remove(n));
     }
-    for (a, b) in [(0, 3), (0, 1), (1, 0), (3, 0), (2, 3), (1, 3), (3, 1)] {
+    for (a, b) in [(0, 3), (0, 1), (1, 0), (3, 0), (2, 3), (1, 3), (3, 1), (4, 3), (0, 4)] {
         v.push(Op::Rename(a, b));
     }
     v.push(Op::Compact);
@@ -286,7 +288,7 @@ fn hex_dec(s: &str) -> Vec<u8> {
 }
 
 /// apply one op to the real archive and, driven by its return value, to the model
-fn apply(m: &mut MutableArchive, op: &Op, nm: &[String; 4], model: &mut Model, unjudged: &mut BTreeSet<String>, trace: &mut Vec<String>) {
+fn apply(m: &mut MutableArchive, op: &Op, nm: &[String; 5], model: &mut Model, unjudged: &mut BTreeSet<String>, trace: &mut Vec<String>) {
     match op {
         Op::Add(n, c, p) => {
             let r = m.add_file_data(&contents(*c), &nm[*n], opt_of(*p));
@@ -330,7 +332,7 @@ fn apply(m: &mut MutableArchive, op: &Op, nm: &[String; 4], model: &mut Model, u
     }
 }
 
-fn judge(path: &Path, model: &Model, unjudged: &BTreeSet<String>, listfile: bool, nm: &[String; 4], r: &mut CaseResult, ctx: &str) -> bool {
+fn judge(path: &Path, model: &Model, unjudged: &BTreeSet<String>, listfile: bool, nm: &[String; 5], r: &mut CaseResult, ctx: &str) -> bool {
     let mut a = match Archive::open(path) {
         Ok(a) => a,
         Err(e) => {
